@@ -4,6 +4,7 @@ CONSTANTS
   Msgs <- SmallMsgs
   MaxMsgs = 2
   LenMode = "runes"
+  IdDecode = "strict"
   Variants <- VariantsDef
   ChunkMax = 2
   AllCuts = TRUE
